@@ -196,9 +196,20 @@ func Mode() int {
 		return 0
 	}
 	if r.stopped {
+		if r.poison {
+			// the run is over: any goroutine of it that is still alive and touches
+			// a shim (ticker loops, watchdogs) ends here, so the bubble can finish
+			reapIfStraggler(r)
+		}
 		return 2
 	}
 	return 1
+}
+
+func reapIfStraggler(r *rt) {
+	if goid() != r.gs[0].goid {
+		runtime.Goexit()
+	}
 }
 
 // Active reports whether a simulated run is in progress.
@@ -285,7 +296,8 @@ func Stop() Stats {
 		}
 	}
 	synctest.Wait()
-	cur.Store(nil)
+	// cur stays set (stopped + poisoned) until the next Start, so that stragglers
+	// of this run that wake up later are reaped instead of running on.
 	raceEnable()
 	return st
 }
@@ -464,8 +476,13 @@ func (r *rt) yield(site int, w *wait) bool {
 		return false
 	}
 	g := r.self()
-	r.step++
-	r.stats.SiteCount[site]++
+	if r.token == g.id {
+		// only the token holder advances the step counter: a goroutine woken by a
+		// timer or raw channel operation runs in parallel until it parks here, and
+		// must not perturb the numbering that decisions are derived from
+		r.step++
+		r.stats.SiteCount[site]++
+	}
 	g.wkind = w.kind
 	g.wmu, g.wrw, g.wcv, g.wwg, g.won = w.mu, w.rw, w.cv, w.wg, w.on
 	g.ticket = w.ticket
@@ -691,18 +708,24 @@ func Yield(site int) bool {
 
 // Go starts fn as a managed goroutine. The logical id is assigned by the
 // parent (which holds the token), so ids are deterministic.
-func Go(fn func()) {
+func Go(fn func()) { GoID(fn) }
+
+// GoID is Go returning the logical id of the new goroutine (-1 outside a run).
+func GoID(fn func()) int32 {
 	r := cur.Load()
 	if r == nil {
 		if simProc.Load() {
-			return // run is over: a zombie must not start new work
+			return -1 // run is over: a zombie must not start new work
 		}
 		go fn()
-		return
+		return -1
 	}
 	w := plainWait
 	if !r.yield(SiteGo, &w) {
-		return
+		if r.aborted && goid() == r.gs[0].goid {
+			go fn() // aborted run: the root goes on alone, unscheduled
+		}
+		return -1
 	}
 	raceDisable()
 	r.mu.Lock()
@@ -723,6 +746,7 @@ func Go(fn func()) {
 	raceEnable()
 	raceReleaseG(r, idx)
 	go goMain(r, idx, fn)
+	return idx
 }
 
 func goMain(r *rt, idx int32, fn func()) {
@@ -1204,4 +1228,58 @@ func Abandon() Stats {
 	r.mu.Unlock()
 	cur.Store(nil)
 	return st
+}
+
+// RawBlocked reports whether managed goroutine id is currently blocked in
+// something the scheduler does not manage (channel operation, select, timer).
+// It is meaningful when called by the token holder: every other goroutine is
+// then parked, finished, or durably blocked.
+func RawBlocked(id int32) bool {
+	r := cur.Load()
+	if r == nil {
+		return false
+	}
+	raceDisable()
+	r.mu.Lock()
+	g := &r.gs[id]
+	b := id < r.ng && !g.parked && !g.done && r.token != id && g.goid != 0
+	r.mu.Unlock()
+	raceEnable()
+	return b
+}
+
+// Self returns the logical id of the calling goroutine.
+func Self() int32 {
+	r := cur.Load()
+	if r == nil {
+		return -1
+	}
+	raceDisable()
+	r.mu.Lock()
+	id := r.self().id
+	r.mu.Unlock()
+	raceEnable()
+	return id
+}
+
+// JoinIDs waits until every listed goroutine has finished or the simulated
+// timeout elapsed; it reports whether all finished.
+func JoinIDs(ids []int32, timeout time.Duration) bool {
+	deadline := time.Now().Add(timeout)
+	for {
+		all := true
+		for _, id := range ids {
+			if id >= 0 && !GDone(id) {
+				all = false
+				break
+			}
+		}
+		if all {
+			return true
+		}
+		if Aborted() || !time.Now().Before(deadline) {
+			return false
+		}
+		Sleep(time.Millisecond)
+	}
 }
